@@ -12,6 +12,7 @@ TARGETS = {
     "S6": (["a"], []),
     "S7": (["b", "c"], ["c"]),
     "S8": (["b"], ["b"]),
+    "S9": (["a", "b"], ["b"]),
 }
 
 SM_STUBS = [
@@ -25,9 +26,9 @@ SM_ASSUME = [
 ]
 
 
-def mkjob(shape, K, budget, ext_per_iter=1, nsn_depth=1, variant=0, double_nsn=False, rewrite=False, ext=True):
+def mkjob(shape, K, budget, ext_per_iter=1, nsn_depth=1, variant=0, double_nsn=False, rewrite=False, ext=True, sym_durations=True):
     tg, et = TARGETS[shape]
-    return dict(shape=shape, variant=variant, sym_durations=True,
+    return dict(shape=shape, variant=variant, sym_durations=sym_durations,
                 cfg=dict(K=K, act_budget=budget, nsn_depth=nsn_depth, targets=tg, ext_targets=et,
                          ext_menu="full" if ext else "engage-only",
                          ext_per_iter=ext_per_iter, double_nsn=double_nsn, rewrite_durations=rewrite))
@@ -70,15 +71,13 @@ class C01(SMSpec):
 
     def jobs(self, tier):
         if tier == "quick":
-            return [mkjob(s, 3, 2) for s in ("S1", "S3", "S4", "S5")] + [mkjob("S4", 2, 1, ext_per_iter=2, variant=3), mkjob("S3", 2, 1, ext_per_iter=2, variant=3)]
+            return ([mkjob(s, 3, 2) for s in ("S1", "S3", "S4", "S5")] + [mkjob("S4", 2, 1, ext_per_iter=2, variant=3), mkjob("S3", 2, 1, ext_per_iter=2, variant=3)]
+                    + [mkjob("S1", 2, 2, double_nsn=True, variant=4), mkjob("S3", 2, 1, double_nsn=True, variant=5)])
         return ([mkjob(s, 4, 2, variant=1) for s in ("S1", "S3", "S4", "S5")]
                 + [mkjob(s, 3, 3, ext_per_iter=2, nsn_depth=2, variant=2, double_nsn=True) for s in ("S1", "S3", "S4", "S5")])
 
     def reach_required(self, tier):
-        r = ["regular-invoked", "suppressed-no-engage", "stopped-iteration-with-default", "engaged-iteration"]
-        if tier != "quick":
-            r.append("double-nsn")
-        return r
+        return ["regular-invoked", "suppressed-no-engage", "stopped-iteration-with-default", "engaged-iteration", "double-nsn"]
 
     def clause_fn(self, c, H):
         cl.clauses_c01(c, H)
@@ -137,7 +136,9 @@ class C02(SMSpec):
         # externals restricted to none / engage(): the engagement history is symbolic, transitions come from expiry
         if tier == "quick":
             return ([mkjob(s, 6, 0, ext=False) for s in ("S2", "S6", "S7")] + [mkjob("S1", 5, 1, ext=False)]
-                    + [mkjob("S6", 5, 0, ext=False, rewrite=True, variant=1), mkjob("S2", 4, 0, ext=False, rewrite=True, variant=1)])
+                    + [mkjob("S6", 5, 0, ext=False, rewrite=True, variant=1), mkjob("S2", 4, 0, ext=False, rewrite=True, variant=1)]
+                    # decorator-default durations (nothing written to the duration topics), incl. a redefined timed state
+                    + [mkjob("S9", 6, 0, ext=False, sym_durations=False), mkjob("S7", 5, 0, ext=False, sym_durations=False, variant=2)])
         return ([mkjob(s, 8, 1, ext=False, variant=1, rewrite=True) for s in ("S2", "S6")]
                 + [mkjob("S7", 8, 0, ext=False, variant=2, rewrite=True), mkjob("S1", 7, 1, ext=False, variant=1),
                    mkjob("S3", 6, 1, ext=False, variant=5)])
